@@ -47,7 +47,7 @@ ASSUMPTIONS = [
 ]
 REAL = ["pynmon FastAPI application and all views", "pynmon.util family tree / timeline builders", "both backend families"]
 STUBBED = ["HTTP transport (in-process ASGI)", "clock", "uuid4"]
-PROBES = ["routes_requested", "queue_longer_than_limit", "partially_purged_store", "aged_final_invocations", "http_200", "http_4xx", "http_5xx"]
+PROBES = ["routes_requested", "queue_longer_than_limit", "partially_purged_store", "duplicate_queue_entry", "aged_final_invocations", "http_200", "http_4xx", "http_5xx"]
 
 _ROUTES: list[tuple[str, list[dict]]] | None = None
 
@@ -132,6 +132,14 @@ def run(seed: int, params: dict, replay: dict | None = None) -> dict:
                     pass
         if rng.random() < 0.5 and len(inv_ids) >= 2:
             app.orchestrator.waiting_for_results(inv_ids[0], [inv_ids[-1]])
+        if rng.random() < 0.45:
+            # the same id can sit in the queue more than once (claimed through the blocking path without consuming
+            # its message, then re-queued by a retry / reroute): a legitimate state the pages must leave alone
+            q_now = readout.peek_queue(app)
+            for _ in range(rng.randint(1, 2)):
+                if q_now:
+                    app.broker.route_invocation(rng.choice(q_now[:3]))
+                    bump("probe.duplicate_queue_entry")
         app.trigger.emit_event("evt", {"x": 1})
         keys.append(app.client_data_store.serialize("K" * 200))
         partial = rng.random() < 0.4
